@@ -378,6 +378,6 @@ def functions_encoded(prefixes):
     """qualified module names (+ source hash) loaded through the hook that match the given prefixes"""
     out = []
     for name, (path, h) in sorted(LOADED.items()):
-        if any(name == p or name.startswith(p) for p in prefixes):
+        if any(name == p or name.startswith(p + ".") for p in prefixes):
             out.append("%s@%s" % (name, h[:10]))
     return out
